@@ -158,6 +158,9 @@ def resetStream (sid code : Int) : CM Unit := do
 def closeConnection (code : Int) (extra : Option Bytes) (last : Option Int) : CM Unit := do
   if !(0 ≤ code && code ≤ 4294967295) then raise (.py .ValueError) else
   if (match last with | some l => !(0 ≤ l && l ≤ HIGHEST_ALLOWED_STREAM_ID) | none => false) then raise (.py .ValueError) else
+  let c ← getS
+  -- the GOAWAY frame must fit the peer's MAX_FRAME_SIZE (checked before any state change)
+  if 8 + ((extra.getD []).length : Int) > c.maxOutFrame then raise (mkExc .FrameTooLargeError) else
   connInput .SEND_GOAWAY
   let c ← getS
   let last := last.getD c.highestIn
@@ -175,6 +178,8 @@ def validateSettingsList : List (Int × Int) → Except Exc Unit
 
 def updateSettings (items : List (Int × Int)) : CM Unit := do
   liftExcept (validateSettingsList items)
+  let c ← getS
+  if 6 * (items.length : Int) > c.maxOutFrame then raise (mkExc .FrameTooLargeError) else
   connInput .SEND_SETTINGS
   let c ← getS
   match Settings.update c.localSettings items with
@@ -188,6 +193,8 @@ def advertiseAlternativeService (field : Bytes) (origin : Option Bytes) (sid : O
   if origin.isNone && sid.isNone then raise (.py .ValueError) else
   let c ← getS
   if c.cfg.client then raise pErr else
+  if (match origin with | some o => decide (o.length > 65535) | none => false) then raise (.py .ValueError) else
+  if 2 + (((origin.getD []).length + field.length : Nat) : Int) > c.maxOutFrame then raise (mkExc .FrameTooLargeError) else
   connInput .SEND_ALTERNATIVE_SERVICE
   let frames ← match origin, sid with
     | some o, _ => pure [Frame.altsvc 0 o field]
